@@ -78,4 +78,68 @@ structure SwitchFact where
   leaks : List String
   deriving DecidableEq, Repr, Inhabited
 
+/-- Guard formula over numbered atoms (C17): the conjunction of the `{{if}}` / `{{else}}` / `{{with}}` / `{{range}}`
+guards around a piece of template text, or the condition under which `language.templates` selects a file.
+Atom `n` is the pipeline `TmplAtom.text` with `TmplAtom.id = n`. -/
+inductive GF where
+  | tt
+  | atom (n : Nat)
+  | not (f : GF)
+  | and (f g : GF)
+  | or (f g : GF)
+  deriving DecidableEq, Repr, Inhabited
+
+/-- A distinct guard pipeline of the Go templates (canonical text). Texts starting with `[local] ` / `[local-def] `
+depend on a range element or a template variable and are not single Booleans of the grammar: they are kept
+distinct for uses and definitions so that no consequence can be drawn from them. -/
+structure TmplAtom where
+  id : Nat
+  text : String
+  deriving DecidableEq, Repr, Inhabited
+
+/-- One Go file of `languages["go"]` (gen/templates.go): output name, template, Go package of the generated
+module (`main` = the package named by the `package` option) and the condition under which
+`language.templates` selects it. -/
+structure TmplFile where
+  id : Nat
+  file : String
+  tmpl : String
+  pkg : String
+  cond : GF
+  deriving DecidableEq, Repr, Inhabited
+
+/-- A Go identifier declared at top level by template text: `pkg`, and `name` (`Recv.Name` for methods and
+struct fields; a `*` stands for a part produced by a template action). -/
+structure TmplName where
+  id : Nat
+  pkg : String
+  name : String
+  deriving DecidableEq, Repr, Inhabited
+
+/-- One definition site: `name` = `TmplName.id`, `file` = `TmplFile.id`, `tmpl` the `define` block that contains
+the text (`main` = top level of the file template), `kind` = func | method | type | var | const | field,
+`guard` the guards between the top of the file template and the text (through `{{template}}` calls). -/
+structure TmplDef where
+  name : Nat
+  file : Nat
+  tmpl : String
+  kind : String
+  guard : GF
+  deriving DecidableEq, Repr, Inhabited
+
+/-- One use site (de-duplicated): an occurrence of a template-defined identifier of the same generated package
+outside its own declaration header. -/
+structure TmplUse where
+  name : Nat
+  file : Nat
+  tmpl : String
+  guard : GF
+  deriving DecidableEq, Repr, Inhabited
+
+/-- Hash of a Go declaration the hand-written C17 expectations depend on. -/
+structure TmplHash where
+  what : String
+  hash : String
+  deriving DecidableEq, Repr, Inhabited
+
 end TmVerif.Facts
